@@ -63,7 +63,7 @@ type Case struct {
 	Req      int    // requester: 0..2 world accounts | 3 fresh deactivated | 4 unknown key | 5 fresh valid account
 	Own      int    // owner of the addressed resource: 0..2 | 3 non-existent id
 	AzOwn    int    // challenge route only: owner of the authorization id in the URL (-1 = Own)
-	Which    string // valid | pending
+	Which    string // valid | pending | device (challenge route: fresh device-attest-01 orders, genuine attestation)
 	Payload  string // valid | empty | emptyjson | garbage | deactivate | onlyexisting | forged (revoke: self-signed certificate with the victim's serial)
 	ProvSwap bool   // the provisioner named in the URL has been re-created under the same name with another id
 	J        JwsSpec
@@ -77,7 +77,7 @@ func main() {
 	n := flag.Int("n", 1000, "number of generated cases")
 	out := flag.String("out", "", "output file")
 	replay := flag.String("replay", "", "file of lines carrying case=x… to re-run")
-	stage := flag.String("stage", "matrix", "matrix | shapes | routes | nonce | d15 | acctrace")
+	stage := flag.String("stage", "matrix", "matrix | shapes | routes | nonce | d15 | acctrace | legacy")
 	flag.Parse()
 	o, err := c.NewOut(*out)
 	if err != nil {
@@ -153,6 +153,10 @@ func main() {
 				w.acctRace(o)
 				continue
 			}
+			if strings.HasPrefix(l, "legacy ") {
+				w.legacy(o)
+				continue
+			}
 			if strings.HasPrefix(l, "route ") {
 				w.routes(o)
 				continue
@@ -190,6 +194,8 @@ func main() {
 		w.d15(o)
 	case "acctrace":
 		w.acctRace(o)
+	case "legacy":
+		w.legacy(o)
 	}
 	_ = context.Background
 }
